@@ -1,5 +1,5 @@
 (* C20 - text and encoding helpers. Statements only. *)
-From Plush Require Import model.Bytes model.Text proofs.TextProofs proofs.EscapeProofs proofs.Utf8Proofs proofs.JsonProofs.
+From Plush Require Import model.Bytes model.Text proofs.TextProofs proofs.EscapeProofs proofs.Utf8Proofs proofs.JsonProofs proofs.HtmlProofs.
 
 (* truncate returns s unchanged (byte-identical, any bytes) when it has at
    most size characters *)
@@ -49,6 +49,23 @@ Theorem C20_html_escape_id : forall s,
   html_escape s = s.
 Proof. exact html_escape_id. Qed.
 
+(* htmlEscape loses nothing: the decoder of the five entities recovers every
+   NUL-free byte string, so distinct strings escape to distinct outputs (NUL is
+   the one exception - it becomes U+FFFD, see html_escape_nul_collides);
+   escaping piecewise and joining is escaping the whole; never shorter *)
+Theorem C20_html_unescape_escape : forall s, nul_free s = true -> html_unescape (html_escape s) = s.
+Proof. exact html_unescape_escape. Qed.
+
+Theorem C20_html_escape_injective : forall a b,
+  nul_free a = true -> nul_free b = true -> html_escape a = html_escape b -> a = b.
+Proof. exact html_escape_injective. Qed.
+
+Theorem C20_html_escape_app : forall a b, html_escape (a ++ b) = html_escape a ++ html_escape b.
+Proof. exact html_escape_app. Qed.
+
+Theorem C20_html_escape_length : forall s, (length s <= length (html_escape s))%nat.
+Proof. exact html_escape_length. Qed.
+
 (* jsEscape, for every byte string and whatever unicode.IsPrint answers: the
    output contains no raw < > & = and no raw line break, and a quote only
    directly after the backslash of an escape (escapes: backslash + backslash,
@@ -76,6 +93,10 @@ Print Assumptions C20_truncate_short.
 Print Assumptions C20_truncate_shape.
 Print Assumptions C20_html_escape_clean.
 Print Assumptions C20_html_escape_id.
+Print Assumptions C20_html_unescape_escape.
+Print Assumptions C20_html_escape_injective.
+Print Assumptions C20_html_escape_app.
+Print Assumptions C20_html_escape_length.
 
 (* toJSON emits a JSON text, for every value: a recogniser of the JSON grammar
    (proofs/JsonProofs.v: strings with the standard escapes and no raw control
